@@ -147,6 +147,46 @@ pub fn test_insertions(c: &InsCase) -> R {
             return Err((sig("position"), format!("read_frame_from_buffer stopped at {} before the end of the last known frame ({last_known_end})", r.offset())));
         }
     }
+    // buffered, with the input arriving incrementally: the parser is run on every growing prefix
+    // and resumes from the last committed offset, as a sans-IO user does
+    {
+        let mut t = TsImpl::new(ts);
+        let mut offset = 0usize;
+        let mut got = Vec::new();
+        let points: Vec<usize> = if bytes.len() <= 160 { (0..=bytes.len()).collect() } else {
+            let mut v: Vec<usize> = (0..=64).collect();
+            let step = (bytes.len() - 64) / 64 + 1;
+            let mut p = 65;
+            while p < bytes.len() {
+                v.push(p);
+                p += step;
+            }
+            v.push(bytes.len());
+            v
+        };
+        'outer: for l in points {
+            loop {
+                let mut r = BufferReader::new(&bytes[offset..l]);
+                match t.read_frame_from_buffer(&mut r) {
+                    Ok(Some(f)) => {
+                        let v = frame_view(&f);
+                        offset += r.offset();
+                        if !refcodec::is_grease(v.ty) {
+                            got.push(v);
+                        }
+                        if got.len() > expect.len() {
+                            break 'outer;
+                        }
+                    }
+                    Ok(None) => break,
+                    Err(e) => return Err((sig("incremental-error"), format!("read_frame_from_buffer on the first {l} bytes (from offset {offset}) failed with {e:?} after {} known frames; {}", got.len(), describe(&got)))),
+                }
+            }
+        }
+        if got != expect {
+            return Err((sig("incremental-frames"), format!("incremental read_frame_from_buffer: {}", describe(&got))));
+        }
+    }
     // async
     {
         let mut t = TsImpl::new(ts);
